@@ -57,7 +57,7 @@ var commutativeMethods = map[string]bool{
 func checkC14(w *World, r *Report) {
 	r.Explanation = "Decides, for every function reachable from the message handlers, the block hooks, genesis import/export and listener registration: (MAP-ORDER) every `range` over a map and every maps.Keys/Values call is order-insensitive: the loop body performs no store write, transfer, hook, event or early exit; loop-carried values are commutative accumulations; writes go to other maps under a key derived from the loop key; slices that collect elements in iteration order are sorted (the sort call dominates every other use) before they are used; (NONDET-API) no wall-clock time (except as a telemetry argument), math/rand, environment access, goroutine, select or floating-point arithmetic."
 	r.NotDecided = "determinism of dependencies (bank, collections, cometbft); cross-version stability of sort.Slice under the non-strict comparator of SortBids (within one binary the result is a function of the input)."
-	r.Rule("MAP-ORDER", "iteration order of unordered containers does not reach effects, exits or values", 6)
+	r.Rule("MAP-ORDER", "iteration order of unordered containers does not reach effects, exits or values", 2)
 	r.Rule("NONDET-API", "no nondeterministic API in consensus code", 20)
 	scope := consensusScope(w)
 	tm := NewTerms(w)
